@@ -7,18 +7,25 @@ import AgpTpf.Proofs.ImpSmall
 namespace AgpTpf.C01
 open AgpTpf
 
+-- the `simp only` sets below name the facts about EVERY spelling of the loop's iterable; under one given spelling some are unused
+set_option linter.unusedSimpArgs false in
 /-- the cut QC of the source raises ValueError exactly when the model's `qcPasses` says no (messages are abstracted to "non-empty") -/
 theorem qc_sub_fragments_is_source (orig : Fragment) (subs : List Fragment) :
     Gen.Imp.BuildAssembly_qc_sub_fragments subs orig = if qcPasses orig subs then .ok () else .error .value := by
   unfold Gen.Imp.BuildAssembly_qc_sub_fragments
   dsimp only
   rw [ImpSmall.lexLe2_key_eq_lexLe]
-  -- `for i, frag_a in enumerate(srtd_frags[:-1]): frag_b = srtd_frags[i + 1]; …`
-  rw [ImpSmall.forIn_enum_dropLast (stableSort lexLe subs) ImpSmall.qcStep]
+  -- first loop, in either spelling (`for i, frag_a in enumerate(srtd_frags[:-1]): frag_b = srtd_frags[i + 1]` or
+  -- `for i in range(len(srtd_frags) - 1): frag_a = srtd_frags[i]; frag_b = srtd_frags[i + 1]`): the iterable has `len - 1` items and
+  -- the k-th pass is `qcStep` on `srtd_frags[k]`, `srtd_frags[k + 1]`
+  rw [ImpSmall.forIn_consPairs (stableSort lexLe subs) ImpSmall.qcStep]
   rotate_left
-  · intro i a b s h
+  · simp only [ImpSmall.length_enumerate, ImpSmall.length_slice_none_neg_one, ImpSmall.length_rangeUp, Int.ofNat_eq_natCast]
+      <;> omega
+  · intro k h1 h2 s
     obtain ⟨ac, oc, pg⟩ := s
-    simp only [h, ImpSmall.ok_bind, ImpSmall.ite_ok_bind]
+    simp (disch := omega) only [ImpSmall.getElem_enumerate, ImpSmall.getElem_slice_none_neg_one, ImpSmall.getElem_rangeUp,
+      Int.zero_add, ImpSmall.pyGet_natCast, ImpSmall.pyGet_natCast_succ, ImpSmall.ok_bind, ImpSmall.ite_ok_bind]
     rfl
   obtain ⟨h1, h2, h3⟩ := ImpSmall.qc_loop_counts subs
   generalize List.foldl _ _ (ImpSmall.consPairs (stableSort lexLe subs)) = S at h1 h2 h3 ⊢
